@@ -27,25 +27,28 @@ theorem litAt?_eq {args : List E} {i : Nat} {s : String} :
 
 def entryOf (kw : Keyword) (args : List E) (s : String) (o : Nat) : Entry :=
   ⟨litAt args kw.ctx, s, litAt args kw.plural, o, true⟩
-def entryNoId (kw : Keyword) (args : List E) : Entry :=
-  ⟨litAt args kw.ctx, "", litAt args kw.plural, 0, false⟩
+
+/-- a keyword without msgid position (`-keywords T:0`, `T:-1`, `X:1c,0`) adds nothing -/
+theorem doExtract_id_zero {kw : Keyword} (fn : String) (args : List E) (occ : Nat → Nat) (h : kw.id = 0) :
+    doExtract kw fn args occ = [] := by
+  unfold doExtract
+  by_cases h1 : kw.name = fn <;> by_cases h2 : kw.maxArg > args.length <;> simp [h1, h2, h]
 
 theorem mem_doExtract_iff {kw : Keyword} {fn : String} {args : List E} {occ : Nat → Nat} {x : Entry} :
     x ∈ doExtract kw fn args occ ↔
-      kw.name = fn ∧ kw.maxArg ≤ args.length ∧
-      ((kw.id = 0 ∧ x = entryNoId kw args) ∨
-       (1 ≤ kw.id ∧ ∃ s, litAt? args kw.id = some s ∧ ¬(s = "" ∧ litAt args kw.ctx = "") ∧
-          x = entryOf kw args s (occ kw.id))) := by
-  unfold doExtract entryNoId entryOf
+      kw.name = fn ∧ kw.maxArg ≤ args.length ∧ 1 ≤ kw.id ∧
+      ∃ s, litAt? args kw.id = some s ∧ ¬(s = "" ∧ litAt args kw.ctx = "") ∧
+        x = entryOf kw args s (occ kw.id) := by
+  unfold doExtract entryOf
   by_cases h1 : kw.name = fn
   · by_cases h2 : kw.maxArg > args.length
     · simp [h1, h2]; omega
     · have h2' : kw.maxArg ≤ args.length := by omega
       by_cases h3 : kw.id = 0
-      · simp [h1, h2, h2', h3]
+      · simp [h1, h2, h3]
       · have h3' : 1 ≤ kw.id := by omega
         cases h4 : litAt? args kw.id with
-        | none => simp [h1, h2, h2', h3]
+        | none => simp [h1, h2, h3]
         | some s =>
           by_cases h5 : s = "" ∧ litAt args kw.ctx = ""
           · simp [h1, h2, h2', h3, h3', h5]
